@@ -43,6 +43,9 @@ type Adv struct {
 	// Early places a DA item one DA height before the genuine blobs of its target; otherwise at the same
 	// height, in front of them.
 	Early bool `json:"early,omitempty"`
+	// Copies > 1: a DA item is published that many times (a third party flooding the chain's namespace at
+	// one DA height: the genuine blobs of that height are far down the listing).
+	Copies int `json:"copies,omitempty"`
 }
 
 type Scenario struct {
@@ -76,6 +79,9 @@ func gen(t *rapid.T) Scenario {
 	for i := 0; i < n; i++ {
 		a := Adv{Kind: rapid.SampledFrom(kinds).Draw(t, "kind"), Target: rapid.IntRange(1, len(sc.Chain)).Draw(t, "target"),
 			Mut: rapid.IntRange(0, 400).Draw(t, "mut"), Ingress: rapid.SampledFrom([]string{"da", "da", "p2p"}).Draw(t, "ingress"), Early: rapid.Bool().Draw(t, "early")}
+		if rapid.IntRange(0, 5).Draw(t, "flood") == 0 {
+			a.Copies = rapid.SampledFrom([]int{3, 101, 120, 199, 250}).Draw(t, "copies")
+		}
 		if sc.P2POnly > 0 {
 			a.Ingress = "da"
 		}
@@ -369,6 +375,13 @@ func commitOf(txs [][]byte) []byte {
 
 func sha256Sum(b []byte) []byte { s := sha256.Sum256(b); return s[:] }
 
+func maxInt(a, b int) int {
+	if a > b {
+		return a
+	}
+	return b
+}
+
 func minInt(a, b int) int {
 	if a < b {
 		return a
@@ -411,11 +424,13 @@ func runWorld(c *fw.Chain, items []item, withAdv bool, root string, p2pOnly int)
 			if it.adv.Early {
 				h--
 			}
-			if it.headerBlob != nil {
-				da.Inject(h, it.headerBlob)
-			}
-			if it.dataBlob != nil {
-				da.Inject(h, it.dataBlob)
+			for k := 0; k < maxInt(1, it.adv.Copies); k++ {
+				if it.headerBlob != nil {
+					da.Inject(h, it.headerBlob)
+				}
+				if it.dataBlob != nil {
+					da.Inject(h, it.dataBlob)
+				}
 			}
 		}
 	}
@@ -549,6 +564,9 @@ func run(sc Scenario, dir string) world.Verdict {
 		for i, a := range sc.Advs {
 			items[i] = build(a, c)
 			labels = append(labels, a.Kind+"/"+a.Ingress)
+			if a.Copies > 100 && a.Ingress == "da" {
+				labels = append(labels, "da-flood>100-blobs-at-one-height")
+			}
 			if items[i].hdr != nil || items[i].sd != nil {
 				couldApply = true
 			}
